@@ -226,7 +226,7 @@ def spec(tier: str, seed: int) -> Spec:
     if tier == "quick":
         n, d, chunk = 5, 3, 8
     else:
-        n, d, chunk = 7, 3, 8
+        n, d, chunk = 6, 3, 8
     shapes = all_shapes(n, d)
     fams = []
     for k in range(0, len(shapes), chunk):
